@@ -41,7 +41,8 @@ type ProfileParams struct {
 	SvcOps      int
 	MaxSteps    int
 	Shape       string // eager|lazy|uniform|starve
-	Burst       int    `json:"burst,omitempty"` // profile burst: number of events emitted in a row
+	Burst       int    `json:"burst,omitempty"`  // profile burst: number of events emitted in a row
+	PileTo      int    `json:"pileTo,omitempty"` // profile limits: direct subscriptions piled up on one rid
 	W           map[string]float64
 	Faults      map[string]bool
 	RIDs        []string // rids clients may use
